@@ -135,6 +135,40 @@ CLAIMED["C11"] = (
     "That lazyRefs implements resolve_inverse is established by the correspondence only. Trusted: harness, generator.",
     "DESIGN.md C11")
 
+CLAIMED["C04"] = (
+    "Rocq/Coq theorems on the verdict/exit-status logic and the subtype-cycle search (sound and complete for every "
+    "finite subtype graph); generated valid schemas + single-fault mutants through check-express and exp2cxx vs the "
+    "extracted model and an independent oracle",
+    "coq/ExpErr.v models error.c's enable/severity table (regenerated from error.c/error.h/fedex.c into "
+    "coq/gen/ErrTable.v on every run), option processing, the error counter, fedex.c's main pass sequence (parse, "
+    "resolve, back end gated on the error count) and resolve.c's ENTITY_check_subsuper_cyclicity loop. "
+    "coq/Properties_C04.v proves (axiom-free): the exit status is nonzero iff an enabled ERROR-severity report was "
+    "raised in any pass; the back end runs iff no error was counted before it; check-express and a generator given "
+    "the same reports reach the same front-end verdict; the cycle search reports a cycle iff the subtype graph has "
+    "one through the entity (both directions, any finite graph). The check generates valid schemas (accept "
+    "expected, output files expected) and mutants with exactly one fault of each class (syntax, undefined "
+    "type/entity/attribute, subtype cycle, select cycle, duplicate declaration...) and requires reject + no "
+    "generated sources, both tools agreeing, and the model's verdict from the printed reports; subtype graphs of "
+    "n=3,4 entities are enumerated exhaustively against the model's search (VERIF-SUBTYPES hook).",
+    "Trusted: translator for the table, gen_express.py oracle, the lemon grammar itself (syntax acceptance is tested "
+    "on mutants, not proved). The parser and the resolver's per-construct rules are modelled only through the "
+    "reports they raise.",
+    "DESIGN.md C04")
+CLAIMED["C20"] = (
+    "Rocq/Coq theorems on option locality (-w/-i change exactly one class; errors can never be disabled; verdict "
+    "independent of warning switches); mutants whose diagnostic must quote the offending token and all -w/-i "
+    "option subsets/orders through check-express vs the extracted model",
+    "coq/Properties_C20.v proves (axiom-free) over coq/ExpErr.v + the regenerated table: processing a -w/-i option "
+    "for one class changes the enabled flag of exactly the diagnostics of that class and no other; no option "
+    "sequence disables an ERROR-severity diagnostic; the verdict is the same under every option sequence. The check "
+    "runs generated schemas with one fault whose diagnostic carries an argument (undefined type/entity/attribute/"
+    "function/schema, duplicate declaration, bad INVERSE, illegal character, leading-underscore identifier) and "
+    "requires the quoted text to be the offending token, the file and line to be the token's; a schema raising "
+    "warnings of several classes is run under every subset of -w and -w/-i orderings and the printed set and exit "
+    "status are compared with the oracle (last option per class wins) and with the model.",
+    "That the scanner/resolver hand the offending token to the report call is tested on mutants, not proved. "
+    "Buffered (-B) ordering not modelled. Open finding: characters the scanner does not list are silently white space.",
+    "DESIGN.md C20")
 CLAIMED["C19"] = (
     "Rocq/Coq invariants and accept-iff theorems for ARRAY, BAG, SET over all operation sequences; LIST "
     "refuted with witnesses; exhaustive short + random long sequences vs the Python runtime and an EXPRESS oracle",
